@@ -30,7 +30,7 @@ type c11Case struct {
 	HoldWho  int // 0 nobody holds, 1 sender holds, 2 recipient holds, 3 both hold (recipient: HoldIdx2), 4 only unrelated accounts hold (the zero / burn address and a stranger)
 	HoldIdx2 int
 	BalMode  int // 0 exact, 1 exact-1, 2 zero, 3 unknown denom
-	DepKind  int // 0 SendToHubEvent, 1 TransferToChainEvent->hub, 2 TransferToChainEvent->bsc (onward transfer scheduled), 3 / 4 as 1 with the receiver spelled 0X... / in upper-case digits
+	DepKind  int // 0 SendToHubEvent, 1 TransferToChainEvent->hub, 2 TransferToChainEvent->bsc (onward transfer scheduled), 3 / 4 / 5 as 1 with the receiver spelled 0X... / in upper-case digits / without prefix
 	SrcRate  int   // cross-chain deposits: commission rate of the ORIGINATING chain's row, 0 = the same as the destination's, i+1 = c11Rates[i]
 	Supply   uint  // deposits: 2^Supply hub units of the denom already circulate (they came in through another listing of the denom)
 	Residue  int64 // hub units sitting on the module's transit account before the deposit (left there by earlier fee payouts)
@@ -120,6 +120,8 @@ func c11Run(in *hub.Instance, cs c11Case) c11Res {
 				ev.(*mhubtypes.TransferToChainEvent).ExternalReceiver = fmt.Sprintf("0X%x", user.Bytes())
 			case 4:
 				ev.(*mhubtypes.TransferToChainEvent).ExternalReceiver = fmt.Sprintf("0x%X", user.Bytes())
+			case 5:
+				ev.(*mhubtypes.TransferToChainEvent).ExternalReceiver = fmt.Sprintf("%x", user.Bytes())
 			}
 		}
 		for _, v := range val {
@@ -310,7 +312,7 @@ func c11Cases(tier string) []c11Case {
 	decs := []uint64{0, 6, 18, 24}
 	for _, a := range am {
 		for _, d := range decs {
-			for _, dk := range []int{0, 1, 3, 4} {
+			for _, dk := range []int{0, 1, 3, 4, 5} {
 				out = append(out, c11Case{Kind: "deposit", Amount: a, Fee: big.NewInt(3), Dec: d, DepKind: dk})
 			}
 		}
